@@ -142,6 +142,7 @@ pub fn check_epoch(rep: &mut Rep, w: &World, c: i128, s: TimeScale, nextprev: bo
             rep.class("wd/utc-differs-from-tai");
         }
     }
+    rep.log_event("wd", || format!("\"t\":\"{}\",\"want\":{}", t, want_tai));
     rep.sample("weekday", || format!("Epoch({}, {:?}) => TAI weekday {:?}, UTC weekday {:?}", c, s, wd(want_tai), want_utc.map(wd)));
     let det = || format!("Epoch({}, {:?})", c, s);
     match guard(|| (e.weekday(), e.weekday_in_time_scale(TimeScale::TAI), e.weekday_utc(), e.weekday_in_time_scale(TimeScale::UTC))) {
